@@ -18,6 +18,7 @@ func init() {
 		Explain: "Decided (structural necessary conditions of 'peering reconnects only while it should'): " +
 			"O1 typestate of peerHandler.reconnectTimer: a timer is created (time.AfterFunc stored into reconnectTimer) only under ph.mu and only where the handler was tested not stopped under the same critical section (ph.ctx.Err() == nil, or a stopped flag set by stop() under ph.mu); the timer is re-armed (Reset) only under ph.mu where reconnectTimer was tested non-nil in the same critical section; the permanent stop cancels the context before it takes ph.mu, and under ph.mu stops the timer and sets it to nil; " +
 			"O2 reconnectTimer and nextDelay are only accessed with ph.mu held (callers' locks counted for unexported helpers), addrs with ph.mu held or, for reads, with the service lock held, and addrs is only written by functions called with the service lock write-held; PeeringService.{peers,state} only under ps.mu (writes in write mode); " +
+			"O6 reconnectTimer, nextDelay and ps.state are tested/read and replaced inside one critical section (no unlock/relock window between the test and the store); " +
 			"O3 backoff: initialDelay > 0, 0 < maxBackoff <= 10 min, 0 < maxBackoffJitter < 100; nextBackoff returns ph.nextDelay after clamping it to maxBackoff on the '>' edge and only subtracting a bounded random afterwards; every other store to nextDelay is the constant initialDelay; the delay of AfterFunc/Reset is the result of ph.nextBackoff() of the same handler; " +
 			"O4 service level: a handler is stopped before it is deleted from ps.peers; the function that sets StateStopped stops every handler of ps.peers first; goroutines that may arm a timer are started from state-reading service methods only where the state is not StateStopped; a handler created while the service is stopped is cancelled at birth and not started. " +
 			"NOT decided: interleavings as such, behaviour of libp2p's Connect/Notify, a dial already in flight when stop() runs.",
@@ -287,6 +288,12 @@ func runC46(c *an.Ctx) {
 		{"PeeringService", "peers", "mu", ""},
 		{"PeeringService", "state", "mu", ""},
 	}, 12)
+	// test-and-set of the timer and read-modify-write of the delay stay inside one critical section
+	c20Atomic(c, ip, pk, fns, []c20Guard{
+		{"peerHandler", "reconnectTimer", "mu", ""},
+		{"peerHandler", "nextDelay", "mu", ""},
+		{"PeeringService", "state", "mu", ""},
+	}, 4)
 	// writers of addrs are only called with the service lock write-held
 	nW := 0
 	for _, fn := range fns {
